@@ -25,14 +25,7 @@ pub open spec fn is_delim(line: Seq<u8>, b: Seq<u8>) -> bool {
 }
 
 // ---------- header lines ----------
-pub open spec fn is_ctl(c: char) -> bool { (c as u32) < 0x20 || c as u32 == 0x7f }   // char::is_ascii_control
-pub open spec fn without_ctl(s: Seq<char>) -> Seq<char>
-    decreases s.len()
-{
-    if s.len() == 0 { Seq::empty() } else if is_ctl(s.last()) { without_ctl(s.drop_last()) } else { without_ctl(s.drop_last()).push(s.last()) }
-}
-// StringExt::filter_ascii_control_characters
-pub open spec fn filter_ctl_spec(s: Seq<char>) -> Seq<char> { trim_spec(without_ctl(s)) }
+// is_ctl / without_ctl / filter_ctl_spec (StringExt::filter_ascii_control_characters): shims/ctl.rs
 pub open spec fn colon_c() -> Seq<char> { seq![':'] }
 // Header::parse_header
 pub open spec fn parse_header_spec(raw: Seq<char>) -> Option<HV> {
